@@ -32,6 +32,7 @@ EXE = "amodel_c19"
 
 F7 = "F7"
 F14 = "F14"
+F30 = "F30"
 
 PIN_POOL = ["A1", "A2", "A3", "A4", "B1", "B2", "B3", "B4", "C1", "C2", "C3", "C4", "D1", "D2"]
 RES_NAMES = ["led", "clk", "bus", "spi", "uart", "btn", "lvds", "mem", "adc", "usb"]
@@ -450,6 +451,81 @@ def gen_shape(rng):
     return t, [{"name": n, "number": k, "dir": d, "xdr": x} for n, k, d, x in reqs], variant
 
 
+
+# ---- IOPort names that coincide ------------------------------------------------------------------
+
+EXTRA_PINS = ["E1", "E2", "E3", "E4", "E5", "E6", "E7", "E8"]
+
+
+def io_names(res):
+    """the IOPort names the leaves of a resource get: "__".join(path) + "__io" / "__p" / "__n" """
+    out = []
+    root = f"{res['body']['name']}_{res['number']}"
+    for path, lf in node_leaves(res["body"]):
+        base = "__".join((root,) + path)
+        if lf["phys"]["t"] == "pins":
+            out.append((base + "__io", len(lf["phys"]["names"]), lf))
+        else:
+            out.append((base + "__p", len(lf["phys"]["p"]), lf))
+            out.append((base + "__n", len(lf["phys"]["n"]), lf))
+    return out
+
+
+def add_collisions(rng, t, reqs):
+    """Add resources whose derived IOPort names coincide although their paths differ (the name is
+    `"__".join(path)`), and requests for them; some of the colliding leaves declare a clock (finding F30)."""
+    pool = t.get("pool", [])
+    fresh = [p for p in PIN_POOL + EXTRA_PINS if p not in pool]
+    rng.shuffle(fresh)
+    diff = rng.random() < 0.25
+
+    def leaf(name, width):
+        take = lambda n: [fresh.pop() if fresh else rng.choice(PIN_POOL) for _ in range(n)]  # noqa: E731
+        if diff:
+            phys = {"t": "diff", "p": take(width), "n": take(width), "conn": None}
+        else:
+            phys = {"t": "pins", "names": take(width), "conn": None}
+        return {"t": "leaf", "name": name, "attrs": gen_attrs(rng, 0.3), "phys": phys, "dir": rng.choice(DIRS),
+                "invert": rng.random() < 0.3, "clock": rng.choice(PERIODS[:7]) if rng.random() < 0.35 else None}
+
+    def group(name, subs):
+        return {"t": "group", "name": name, "attrs": gen_attrs(rng, 0.2), "subs": subs}
+    shape = rng.choice(["sibling", "cross", "flat"])
+    w1, w2 = rng.choice([(1, 2), (2, 3), (2, 2), (1, 1), (3, 1), (2, 1)])
+    if shape == "sibling":           # col_0 / p__q   and   col_0 / p / q
+        subs = [leaf("p__q", w1), group("p", [leaf("q", w2)])]
+        if rng.random() < 0.5:
+            subs.reverse()
+        new = [{"number": 0, "body": group("col", subs)}]
+    elif shape == "cross":           # hdr_k / b_0 / c   and   hdr_k__b_0 / c
+        k = rng.choice([0, 1])
+        new = [{"number": k, "body": group("hdr", [group("b_0", [leaf("c", w1)])])},
+               {"number": 0, "body": group(f"hdr_{k}__b", [leaf("c", w2)])}]
+    else:                            # col_0__y_0   and   col_0 / y_0
+        new = [{"number": 0, "body": leaf("col_0__y", w1)},
+               {"number": 0, "body": group("col", [leaf("y_0", w2)])}]
+    rng.shuffle(new)
+    t["resources"] = t["resources"] + new
+    for r in new:
+        if rng.random() < 0.92:
+            d = ("val", "-") if rng.random() < 0.8 else None
+            reqs.insert(rng.randint(0, len(reqs)), {"name": r["body"]["name"], "number": r["number"], "dir": d, "xdr": None})
+    return shape
+
+
+def gen_user_ports(rng, t):
+    """the user's own IOPorts: sometimes named exactly like a port a request creates"""
+    out = []
+    if rng.random() < 0.35:
+        cands = [(n, w) for r in t["resources"] for n, w, lf in io_names(r) if w > 0]
+        if cands:
+            n, w = rng.choice(cands)
+            out.append((n, rng.choice([w, w, 1, 2]), rng.choice(["before", "after"])))
+    if rng.random() < 0.15:
+        out.append(("myport", rng.randint(1, 3), rng.choice(["before", "after"])))
+    return out
+
+
 # ================================================================================================
 # running the real code
 
@@ -838,10 +914,10 @@ def parse_rtlil_top_ports(text):
 
 def e2e_case_real(args):
     """(runs in a worker) returns the observation of one end-to-end case"""
-    kind, t, reqs, default_clk, use_mask, buf_dirs = args
+    kind, t, reqs, default_clk, use_mask, buf_dirs, user_ports = args
     import warnings
     warnings.filterwarnings("ignore")
-    from amaranth.hdl import Elaboratable, Module, Signal
+    from amaranth.hdl import Elaboratable, Module, Signal, Instance, IOPort
     from amaranth.lib import io
     from amaranth.build.res import PortGroup
     try:
@@ -855,6 +931,13 @@ def e2e_case_real(args):
         def elaborate(self, plat):
             m = Module()
             k = 0
+
+            def add_user_ports(when):
+                # the user's own IOPorts (no pin metadata), possibly named like a requested port
+                for n_, (uname, width, pos) in enumerate(user_ports):
+                    if pos == when:
+                        m.submodules[f"user{n_}"] = Instance("USERCELL", i_A=IOPort(width, name=uname))
+            add_user_ports("before")
             for j, rq in enumerate(reqs):
                 o, v = do_request(plat, t, rq)
                 log.append({"out": o, "state": obs_state(plat)})
@@ -888,6 +971,7 @@ def e2e_case_real(args):
                         s = Signal(len(leaf), name=f"drv{k}")
                         m.d.comb += buf.o.eq(s)
                     used.append([obs_port(leaf)["ios"][0]["name"], bd])
+            add_user_ports("after")
             if default_clk is not None:
                 c = Signal(4)
                 m.d.sync += c.eq(c + 1)
@@ -904,8 +988,18 @@ def e2e_case_real(args):
     text = text if isinstance(text, str) else text.decode()
     il = files.get("top.il")
     il = il if isinstance(il, str) else (il.decode() if il is not None else "")
+    # internal observable: which IOPort object the design put under which top-level name
+    design_ports = None
+    try:
+        design_ports = [[name, port.name, len(port),
+                         None if all(md is None for md in port.metadata) else
+                         [None if md is None else md.name for md in port.metadata]]
+                        for name, port, _d in platform._design.ports]
+    except Exception:  # noqa: BLE001 - private attribute, may be refactored away
+        pass
     return {"log": log, "used": used, "file": fname, "text": text, "rtlil_ports": parse_rtlil_top_ports(il),
-            "state": obs_state(platform)}
+            "state": obs_state(platform), "design_ports": design_ports,
+            "user_ports": [[u, w] for u, w, _pos in user_ports]}
 
 
 def judge_e2e(chk, kind, t, reqs, default_clk, real, m, n_elab):
@@ -959,62 +1053,148 @@ def judge_e2e(chk, kind, t, reqs, default_clk, real, m, n_elab):
         return "unparsed"
 
     def expectation(out_key, state_key):
-        ports = {}
-        for s in steps:
+        ports = []
+        seen = set()
+        by_key = {(r["body"]["name"], r["number"]): r for r in t["resources"]}
+        for rq, s in zip(reqs, steps):
             if s[out_key]["ok"]:
-                for g in s[out_key]["grants"]:
-                    for iop in g["ios"]:
-                        ports[iop["name"]] = iop
+                res = by_key.get((rq["name"], rq["number"]))
+                leaves = node_leaves(res["body"]) if res else []
+                for gi, g in enumerate(s[out_key]["grants"]):
+                    for ii, iop in enumerate(g["ios"]):
+                        # the clock a leaf declares is attached to its first IOPort (`__io`, resp. `__p`)
+                        ck = leaves[gi][1]["clock"] if gi < len(leaves) and ii == 0 else None
+                        ports.append({**iop, "clock": ck})
+                        seen.add((iop["name"], tuple(iop["pins"])))
         if final:
             for g in final[state_key]["pins"]:          # PinBuffers that prepare() adds (leaked ones too)
                 for iop in g["ios"]:
-                    ports.setdefault(iop["name"], iop)
+                    if (iop["name"], tuple(iop["pins"])) not in seen:
+                        ports.append({**iop, "clock": None})
         clocks = sorted((n, p) for n, p in final[state_key]["clocks"]) if final else []
         return ports, clocks
 
+    def attr_ok(bit, want):
+        got = attrs.get(bit, [])
+        if want:
+            return got == [want]
+        return got in ([], [[]])
+
+    file_info = {"classes": []}
+
     def check_file(ports, want_clocks):
+        """The constraint file against the top-level ports *actually present in the emitted design*.  IOPort
+        names need not be unique (`"__".join(path)` of different paths, or a user's own IOPort): the design
+        then calls the later ones `name$N`, and every such top-level port needs its own lines."""
+        file_info["classes"] = []
+        groups = {}
+        for iop in ports:
+            groups.setdefault(iop["name"], []).append(iop)
+        placed = {}                        # id(granted IOPort) -> the top-level port of the design it is
+        users = {}
+        for uname, width in real.get("user_ports", []):
+            users.setdefault(uname, []).append(width)
+
+        def base_of(r):
+            if r in groups or r in users:
+                return r
+            mm = re.fullmatch(r"(.*)\$\d+", r)
+            if mm and (mm.group(1) in groups or mm.group(1) in users):
+                return mm.group(1)
+            return None
+        by_bit = {}
+        for bit, pin in locs:
+            by_bit.setdefault(bit, []).append(pin)
+        observed = {}                      # top-level port -> list of pins in bit order, or None (no line at all)
+        rt_groups = {}
+        for r, width in sorted(rt.items()):
+            b = base_of(r)
+            if b is None:
+                return f"top-level port {r} was never granted"
+            rt_groups.setdefault(b, []).append(r)
+            bits = [r] if width == 1 else [f"{r}[{i}]" for i in range(width)]
+            pins = []
+            for bit in bits:
+                got = by_bit.pop(bit, [])
+                if len(got) > 1:
+                    return f"{bit} is constrained {len(got)} times: {got}"
+                pins.append(got[0] if got else None)
+            if width and all(x is None for x in pins):
+                observed[r] = None
+            elif any(x is None for x in pins):
+                return f"top-level port {r}: bits {[bt for bt, x in zip(bits, pins) if x is None]} are not constrained"
+            else:
+                observed[r] = pins
+        if by_bit:
+            return f"constraints for {sorted(by_bit)[:4]}, which are not bits of any top-level port of the design"
         # every port the harness buffered must be a top-level port (the n side of a pair may be elided)
+        used_count = {}
         for name, _bd in real["used"]:
-            if name not in rt:
-                return f"buffered port {name} is not a top-level port of the design"
-        # every top-level port must be a granted IOPort of the same width
-        want_locs = []
-        for name, width in sorted(rt.items()):
-            if name not in ports:
-                return f"top-level port {name} was never granted"
-            if len(ports[name]["pins"]) != width:
-                return f"top-level port {name} has width {width}, declared {len(ports[name]['pins'])} pins"
-            want_locs += [tuple(x) for x in ports[name]["spec_bits"]]
-        if sorted(locs) != sorted(want_locs):
-            extra = sorted(set(locs) - set(want_locs))
-            missing = sorted(set(want_locs) - set(locs))
-            dup = sorted({x for x in locs if locs.count(x) > 1})
-            return f"location constraints differ: unexpected {extra[:4]} missing {missing[:4]} duplicated {dup[:4]}"
-        pins_used = [p for _b, p in locs]
+            used_count[name] = used_count.get(name, 0) + 1
+        for name, n_used in used_count.items():
+            if len(rt_groups.get(name, [])) < n_used:
+                return f"{n_used} buffered port(s) named {name}, but the design has top-level ports {rt_groups.get(name, [])}"
+        # each top-level port of a name group is one of the declared ports of that name, each at most once
+        for b, rs in rt_groups.items():
+            cands = [("res", iop) for iop in groups.get(b, [])] + [("user", w) for w in users.get(b, [])]
+            for r in rs:
+                width, obs = rt[r], observed[r]
+                hit = None
+                for idx, (ck, c) in enumerate(cands):
+                    if ck == "user":
+                        if c == width and (obs is None or width == 0):
+                            hit = idx
+                            break
+                    elif len(c["pins"]) == width and (obs or []) == list(c["pins"]):
+                        want = [list(x) for x in c["attrs"]]
+                        bits = [r] if width == 1 else [f"{r}[{i}]" for i in range(width)]
+                        if kind in ("ecp5", "gowin") and not all(attr_ok(bit, want) for bit in bits):
+                            continue
+                        hit = idx
+                        break
+                if hit is None:
+                    decl = [(c["pins"], c["attrs"]) if ck == "res" else f"user port of width {c}" for ck, c in cands]
+                    return (f"top-level port {r} (width {width}) is constrained to {obs}"
+                            + (f" with attributes {[attrs.get(bt) for bt in ([r] if width == 1 else [f'{r}[0]'])]}" if kind != "ice40" else "")
+                            + f", but the ports named {b} declare {decl}")
+                if cands[hit][0] == "res":
+                    placed[id(cands[hit][1])] = r
+                del cands[hit]
+        pins_used = [p_ for _b, p_ in locs]
         if len(set(pins_used)) != len(pins_used):
             return "a physical pin is constrained twice"
-        if kind in ("ecp5", "gowin"):
-            for name in rt:
-                for bit, _pin in ports[name]["spec_bits"]:
-                    want = [list(x) for x in ports[name]["attrs"]]
-                    got = attrs.get(bit, [])
-                    if want:
-                        if got != [want]:
-                            return f"attributes of {bit}: {got} != {want}"
-                    elif got not in ([], [[]]):
-                        return f"attributes of {bit}: {got} but none declared"
+        # internal observable: the design's own (name -> IOPort) association
+        for dname, _pname, _w, metas in (real.get("design_ports") or []):
+            if metas is not None and dname in observed and observed[dname] != metas and None not in metas:
+                return (f"top-level port {dname} is the IOPort with pins {metas}, "
+                        f"but the file constrains it to {observed[dname]}")
         # clocks: each declared clock of a granted resource exactly once, with its period
         if kind == "gowin":
             if freqs:
                 return "frequency lines in a .cst"
-        elif sorted(freqs) != want_clocks:
-            return f"clock constraints {sorted(freqs)} != declared {want_clocks}"
+        else:
+            # the line must name the top-level port that *is* the clocked IOPort (its own name if it is not in
+            # the design at all)
+            want = sorted((placed.get(id(iop), iop["name"]), iop["clock"]) for iop in ports if iop["clock"] is not None)
+            if len(want) != len(want_clocks):
+                want = want_clocks          # (leaked clocks of the un-repaired allocator: by name only)
+            if sorted(freqs) != want:
+                # F30, structurally: a clocked port was de-duplicated to `name$N` because another used top-level
+                # port has the same IOPort name, and the lines are exactly the ones rendered from IOPort.name
+                renamed = [iop for iop in ports if iop["clock"] is not None
+                           and placed.get(id(iop), iop["name"]) != iop["name"]
+                           and len(rt_groups.get(iop["name"], [])) >= 2]
+                by_name = sorted((iop["name"], iop["clock"]) for iop in ports if iop["clock"] is not None)
+                if renamed and sorted(freqs) == by_name:
+                    file_info["classes"] = [F30]
+                return f"clock constraints {sorted(freqs)} != declared {want} (top-level port that carries the clocked pins, period fs)"
         return ""
 
     ports, clocks = expectation("model", "state")
-    for name in rt:
-        if name in ports and ports[name]["bits"] != ports[name]["spec_bits"]:
-            chk.not_shown("C19: model constraint bits differ from the Spec's", {**rep, "port": ports[name]})
+    for iop in ports:
+        if iop["bits"] != iop["spec_bits"]:
+            chk.not_shown("C19: model constraint bits differ from the Spec's", {**rep, "port": iop})
+            break
     msg = check_file(ports, clocks)
     if elab_label != "agree":
         # the elaboration already showed an F7 leak; report its consequence in the rendered file, if any
@@ -1030,11 +1210,13 @@ def judge_e2e(chk, kind, t, reqs, default_clk, real, m, n_elab):
             return "elab-" + elab_label + "+file"
         return "elab-" + elab_label
     if msg:
-        classes = [F7] if not check_file(*expectation("leaky", "leaky_state")) else []
+        classes = list(file_info["classes"])
+        if not classes:
+            classes = [F7] if not check_file(*expectation("leaky", "leaky_state")) else []
         if classes:
             rep["classes"] = classes
         report(chk, f"{real['file']} ({kind}): {msg}" + (f" classes={classes}" if classes else ""), {**rep, "why": msg})
-        return "violation" + (":F7" if classes else "")
+        return "violation" + (":" + ",".join(classes) if classes else "")
     return "agree"
 
 
@@ -1100,6 +1282,36 @@ def boundary_cyclic(chk):
     return impl
 
 
+def witness_clock_on_colliding_name(chk):
+    """F30, deterministic witness run on every invocation (iCE40 .pcf and ECP5 .lpf): `a.x__y` (pin A1) and the
+    clocked `a.x.y` (pin B1) both get the IOPort name `a_0__x__y__io`; the design calls the second one
+    `a_0__x__y__io$1`, the location lines follow, the frequency line must too.  Judged like any e2e case, so
+    the KNOWN-FINDING line appears while the defect is there and disappears when it is repaired."""
+    y = {"t": "leaf", "name": "y", "attrs": [], "dir": "i", "invert": False, "clock": 100_000_000,
+         "phys": {"t": "pins", "names": ["B1"], "conn": None}}
+    xy = {"t": "leaf", "name": "x__y", "attrs": [], "dir": "i", "invert": False, "clock": None,
+          "phys": {"t": "pins", "names": ["A1"], "conn": None}}
+    t = {"resources": [{"number": 0, "body": {"t": "group", "name": "a", "attrs": [], "subs": [
+        xy, {"t": "group", "name": "x", "attrs": [], "subs": [y]}]}}], "connectors": [], "pool": ["A1", "B1"]}
+    reqs = [{"name": "a", "number": 0, "dir": ("val", "-"), "xdr": None}]
+    m = json.loads(chk.driver.ask([ser_hist(t, reqs)])[0])
+    out = {}
+    for kind in ("ice40", "ecp5"):
+        real = e2e_case_real((kind, t, reqs, None, [True], ["i"], []))
+        chk.count()
+        label = judge_e2e(chk, kind, t, reqs, None, real, m, len(reqs))
+        chk.hist("witness F30:" + kind, label)
+        if "text" in real:
+            locs, freqs, _a, _o = parse_constraints(kind, real["text"])
+            port_of_pin = {pin: bit for bit, pin in locs}
+            out[kind] = {"result": label, "top-level port on the clocked pin B1": port_of_pin.get("B1"),
+                         "frequency lines": [[n, p_] for n, p_ in freqs]}
+        else:
+            out[kind] = {"result": label, "error": real.get("prepare_error") or real.get("setup_error")}
+    chk.extra.setdefault("boundary", {})["F30 witness: clock declared on a port whose IOPort name collides with another used port"] = out
+    return out
+
+
 # ================================================================================================
 
 def _real_hist_worker(args):
@@ -1119,7 +1331,7 @@ def run(chk):
         return
     rng = chk.rng
     quick = chk.tier == "quick"
-    n_hist = 300 if quick else 8000
+    n_hist = 220 if quick else 8000
     n_shape = 60 if quick else 1000
     n_attrs = 12 if quick else 80
     n_names = 300 if quick else 8000
@@ -1245,6 +1457,7 @@ def run(chk):
             else:
                 t = gen_table(rng, probes=False, p_missing=0.02)
                 reqs = gen_history(rng, t, rng.randint(2, 8), p_fault=rng.choice([0.0, 0.05]), dash_bias=0.5)
+            collide = add_collisions(rng, t, reqs) if rng.random() < 0.4 else None
             default_clk = None
             post = []
             if rng.random() < 0.4:
@@ -1256,24 +1469,31 @@ def run(chk):
                 post = [{"name": "sysclk", "number": 0, "dir": ("val", "-"), "xdr": None}]
             use_mask = [rng.random() < 0.9 for _ in range(7)]
             buf_dirs = [rng.choice(["i", "o", "io"]) for _ in range(5)]
-            ecases.append((kind, t, reqs, post, default_clk, use_mask, buf_dirs))
-    elines = [ser_hist(t, reqs + post) for _k, t, reqs, post, _d, _u, _b in ecases]
+            user_ports = gen_user_ports(rng, t)
+            ecases.append((kind, t, reqs, post, default_clk, use_mask, buf_dirs, user_ports, collide))
+    elines = [ser_hist(t, reqs + post) for _k, t, reqs, post, _d, _u, _b, _up, _c in ecases]
     eresps = chk.driver.ask(elines)
     with ProcessPoolExecutor(max_workers=min(16, os.cpu_count() or 4)) as ex:
-        ereals = list(ex.map(e2e_case_real, [(k, t, reqs, d, u, b) for k, t, reqs, _post, d, u, b in ecases], chunksize=2))
-    for (kind, t, reqs, post, default_clk, _u, _b), resp, real in zip(ecases, eresps, ereals):
+        ereals = list(ex.map(e2e_case_real, [(k, t, reqs, d, u, b, up) for k, t, reqs, _post, d, u, b, up, _c in ecases],
+                             chunksize=2))
+    for (kind, t, reqs, post, default_clk, _u, _b, user_ports, collide), resp, real in zip(ecases, eresps, ereals):
         if resp.startswith("error"):
             raise common.Infra(f"driver rejected a history: {resp}")
         m = json.loads(resp)
         chk.count()
         label = judge_e2e(chk, kind, t, reqs + post, default_clk, real, m, len(reqs))
         chk.hist("e2e:" + kind, label)
+        rtp = real.get("rtlil_ports") or {}
+        chk.hist("e2e top-level ports renamed name$N by the design", sum(1 for n_ in rtp if re.search(r"\$\d+$", n_)))
+        chk.hist("e2e colliding tables", str(collide))
+        chk.hist("e2e user IOPorts", len(user_ports))
         nlocs = len(parse_constraints(kind, real["text"])[0]) if "text" in real else 0
         chk.hist("e2e constrained bits", min(nlocs, 12))
         chk.distinct(("e2e", kind, ser_hist(t, reqs)), nontrivial=nlocs > 0)
         if "text" in real and nlocs > 2:
             chk.sample({"platform": kind, "file": real["file"], "text": real["text"][:700]}, limit=6)
 
+    clk_boundary = witness_clock_on_colliding_name(chk)
     stage("e2e")
     flush_reports(chk)
     chk.cov["rule"] = (
@@ -1281,7 +1501,8 @@ def run(chk):
         "acyclically, attrs, clocks, one probe resource per physical pin) x random histories of 2-9 requests "
         "with dir/xdr overrides and injected faults, followed by a sweep over all resources and probes; "
         "shape: F7-shaped histories; attrs: None-valued attributes; names: map_names on random chains; "
-        "e2e: 3 platforms x histories executed inside elaborate(), constraint file and RTLIL ports parsed. "
+        "e2e: 3 platforms x histories executed inside elaborate() (40% with resources whose derived IOPort names "
+        "coincide, 35% with a user IOPort named like a requested one), constraint file and RTLIL ports parsed. "
         "distinct = canonical text of table+history; non-trivial = at least one grant and one refusal "
         "(hist), a connector-relative name (names), at least one constrained bit (e2e)")
     chk.extra["tier_sizes"] = {"hist": n_hist, "shape": n_shape, "attrs": n_attrs, "names": n_names, "e2e_per_platform": n_e2e}
@@ -1290,7 +1511,13 @@ def run(chk):
         "shadows the earlier sibling's options and port; not modelled)",
         "connector tables are acyclic (hypothesis of map_names_terminates); on a cyclic chain the real "
         f"Pins.map_names does not return: replay -> {impl_cyc}",
-        "resource/sub-signal names contain no '__' and '<name>_<number>' is unique, so IOPort names are unique",
+        "IOPort names may coincide (different paths with the same '__'-join, or a user's IOPort): the constraint "
+        "lines are matched against the top-level port names present in the emitted RTLIL (name, name$1, ...), "
+        "each of which must carry the pins of one distinct declared port of that name; a frequency line must "
+        "name the top-level port that carries the clocked pins",
+        f"F30 (recorded finding): frequency lines are rendered from IOPort.name; classified only when a clocked port "
+        f"was de-duplicated to name$N next to another used port of that name and the lines are exactly the "
+        f"by-IOPort-name ones; witness -> {clk_boundary}",
         "a rendered frequency identifies the declared period to the femtosecond (compared as rationals, not floats)",
         "which top-level port bits are 'used' is read from the emitted RTLIL (the n side of a differential pair "
         "is elided by the iCE40 and ECP5 buffers), not re-derived by the harness",
